@@ -178,6 +178,8 @@ struct MOp {
 
 pub struct Exec<'a> {
     pub world: World,
+    /// The history ends with the Ring dropped as is (no settling polls).
+    pub abrupt_end: bool,
     ops: Vec<MOp>,
     by_user_data: BTreeMap<u64, usize>,
     by_serial: BTreeMap<u64, usize>,
@@ -252,6 +254,7 @@ impl<'a> Exec<'a> {
             feats.insert("direct-descriptor".to_string());
         }
         Some(Exec {
+            abrupt_end: false,
             world,
             ops: Vec::new(),
             by_user_data: BTreeMap::new(),
@@ -1326,8 +1329,14 @@ impl<'a> Exec<'a> {
         // Flush what is still queued by polling once.
         // (Ring::poll only enters the kernel when the completion queue is
         // empty, so this can take more than one call.)
+        if self.abrupt_end {
+            self.feat("abrupt-end");
+            if sim::sim().ring(self.world.ring_fd).map(|r| r.sq_pending()).unwrap_or(0) > 0 {
+                self.feat("ring-dropped-with-unsubmitted-entries");
+            }
+        }
         for _ in 0..6 {
-            if self.stop {
+            if self.stop || self.abrupt_end {
                 break;
             }
             let _ = catch(|| self.world.poll_ring(Some(Duration::ZERO)));
@@ -1756,6 +1765,13 @@ pub fn execute(h: &History, oracles: Oracles, ctx: &mut Ctx) -> BTreeSet<String>
     }
     match (&h.teardown, oracles.c12) {
         (Some(t), true) => exec.finish_teardown(t),
-        _ => exec.finish(),
+        _ => {
+            // One history in three of the leak audit (C06) ends abruptly: the
+            // Ring is dropped with whatever is still queued, unsubmitted, and
+            // with the futures dropped just before (a pure function of the
+            // history's length, so that replays agree).
+            exec.abrupt_end = oracles.c06 && !oracles.c04 && h.steps.len() % 3 == 2;
+            exec.finish()
+        }
     }
 }
